@@ -378,6 +378,12 @@ def build(tier, only=None):
     t_ = (x - (s_ - z_)) - (y - z_)
     rep.add(core.decided("C10/canary/t=u-v", PROP, not ring.Rat.coerce(s_ + t_).same(x + y), text="canary: 2Sum with t = u - v does not satisfy s + t = x + y", kind="canary"))
     rep.replayers["C10/"] = native_replay
+    # bounded stand-in: every case incl. float64 and the Dekker products, natively (never counted as proved)
+    if only is None or "bounded" in only:
+        from vf.contracts import C10_bounded
+
+        C10_bounded.run(rep, tier)
+        rep.replayers["C10/bounded"] = C10_bounded.replay
     return rep
 
 
@@ -389,6 +395,9 @@ def main(tier, only=None):
 def replay(path):
     d = json.load(open(path))
     o = core.Obligation(id=d["obligation"], prop=PROP, model=d.get("model"), meta=d.get("meta") or {})
+    if (o.meta or {}).get("part") == "bounded":
+        print(json.dumps(o.meta.get("fails"), indent=1, default=str))
+        return 1 if o.meta.get("fails") else 0
     info = native_replay(o)
     print(json.dumps(info, indent=1, default=str))
     return 1 if info.get("replayed") else 0
